@@ -97,8 +97,24 @@ claim("C25",
  "The reflection decoder's results for the 9 parameter bytes and the length-prefixed user agent follow its documented format (model functions), user-agent parsing is an arbitrary verdict, message handlers and Daemon.Disconnect are recorders. Outside: IntroductionMessage.process wiring to connectionIntroduced, the pool and timers.",
  "DESIGN.md §4 C25")
 
+
+claim("C02",
+ "Bounded symbolic check of the unspent-set step and the double-spend guards: (1) Blockchain.processTransactions over a fake store with three output ids that are each unspent or not (free) and 1..2 (thorough 1..3) transactions of 1..2 inputs, free per-transaction rule verdicts, strict and arbitrating mode: an accepted block spends only outputs unspent at the head, spends no output twice, contains no rule-violating transaction, is unchanged in strict mode, and strict mode refuses only for such a reason; (2) one real blockdb.Unspents.ProcessBlock step over a key/value model of the buckets, from a pool of 1..2 outputs built through the real accessors and a block of 1..2 transactions spending a pool entry or an unknown id: a block spending a missing or twice-spent output is refused, otherwise every spent id is gone, every other entry untouched, every created output present with exact contents and the size is old - spent + created.",
+ "bolt is replaced by a key/value model at the dbutil seam (its rollback of a failed Update is outside); output and transaction ids are concrete pairwise-distinct tags (collision freedom); per-transaction rule checking is a free verdict constrained by 'a transaction spending an output twice is invalid' (C09). Whole-history equality with an independent ledger is replaced by this step lemma.",
+ "DESIGN.md §4 C02")
+
+claim("C05",
+ "Bounded symbolic check of block creation: Visor.createBlockFromTxns over a fake chain with 1..3 pending transactions (sizes 183/220 bytes), free fees, free rule verdicts (valid / soft / hard violation), free head time, block time and size limit, running the real coin.SortTransactions (sort.Sort with the real Less/Swap) and Transactions.TruncateBytesTo: the block handed to NewBlock holds only transactions that passed the hard and soft rules, each once, ordered by min(fee*1024, 2^64-1)/size measured at the head time (highest first, ties by lowest hash), fits the size limit, and everything left out is invalid or comes later in that order with the next one not fitting. Conflict arbitration (keep the earlier transaction in that order, drop invalid ones) is checked on Blockchain.processTransactions in arbitrating mode (shared with C02).",
+ "Rule checking and fee computation are free per-transaction values; transaction ids are concrete distinct tags; mathutil.MultUint64 is summarised by its contract (C31). Outside: acceptance of the produced block by an independent follower end to end (argued from NewBlock's re-validation and C04), the 65535-transaction cap.",
+ "DESIGN.md §4 C05")
+
+claim("C07",
+ "Bounded symbolic check of the derived indexes of the unspent set over a key/value model: after the real buildAddrIndex and after one real Unspents.ProcessBlock step (pool of 1..2 outputs over 2 addresses, block of 1..2 transactions creating 1..2 outputs each) the per-address index lists exactly the ids of the outputs each address owns (each once, no row for an address without outputs), AddressCount is the number of addresses with outputs, GetUnspentsOfAddrs answers for every queried address with exactly its outputs, the checksum is the xor of the snapshot hashes of the set, and the index height follows the block.",
+ "Reduced scope: transaction history (historydb, spent-in-block links), predicted balances in Visor.GetBalanceOfAddresses, transaction views and block queries are outside this revision. bolt replaced by a key/value model; ids are concrete distinct tags, the snapshot hash is uninterpreted.",
+ "DESIGN.md §4 C07 (H1/H3 built)")
+
 _pending = "check not built yet in this revision (work in progress; see DESIGN.md §4)"
-for p in ["C02","C05","C06","C07","C10","C14","C16","C17","C19","C20","C26","C27","C30","C33"]:
+for p in ["C06","C10","C14","C16","C17","C19","C20","C26","C27","C30","C33"]:
     na(p, _pending)
 na("C08", "crash points inside boltdb's mmap/page commit and fsync ordering plus the goroutine/channel WalkChain pipeline cannot be encoded by an SSA->SMT executor (no I/O ordering or scheduling semantics)")
 na("C32", "race freedom and shutdown under all goroutine schedules: the encoder has no thread/channel semantics; the race detector is a dynamic technique outside this family")
